@@ -107,6 +107,7 @@ type c02Issued struct {
 	Expired  bool
 	Jkt      *string
 	Claims   map[string]any
+	FieldIDs []string // all claim ids of the definitions fulfilled
 	// NullClaims: ids of optional constraint fields for which the presented credential had no value (vcr/pe maps them
 	// to nil): no value was established; the answer may omit the claim or carry null, and must not touch a standard member
 	NullClaims map[string]bool
@@ -114,6 +115,10 @@ type c02Issued struct {
 	Subs       map[string]any    // definition id -> submission JSON sent
 	VPs        []string          // raw presentations sent
 	Configured map[string]string // wallet owner type -> definition id configured for the scope
+	// LooseClaims: issued (legitimately, no expectation) on a presentation that deviates from the honest one against a
+	// definition without lower bounds: which credentials back which claims is then outside the model; only the
+	// standard members are judged
+	LooseClaims bool
 	// Tainted: issued although the request was defective (already reported); consequences of that are not reported again
 	Tainted bool
 }
@@ -241,6 +246,11 @@ func (s *c02State) record(res c02TokenResult, clientID, scope string, legs []*c0
 		for _, k := range r.valuelessClaims() {
 			is.NullClaims[k] = true
 		}
+		for _, d := range r.PD.Descs {
+			for _, f := range d.Fields {
+				is.FieldIDs = append(is.FieldIDs, f.ID)
+			}
+		}
 		is.DefIDs = append(is.DefIDs, r.PD.ID)
 		is.Subs[r.PD.ID] = rds[i].SubJSON
 		for _, vp := range rds[i].VPs {
@@ -301,6 +311,23 @@ func c02JSONEq(a, b any) bool {
 	return reflect.DeepEqual(av, bv)
 }
 
+// c02NormSubs: an absent descriptor_map and an empty one are the same submission
+func c02NormSubs(subs map[string]any) map[string]any {
+	b, _ := json.Marshal(subs)
+	var out map[string]any
+	_ = json.Unmarshal(b, &out)
+	for _, v := range out {
+		if sm, ok := v.(map[string]any); ok {
+			if dm, has := sm["descriptor_map"]; has {
+				if l, isList := dm.([]any); dm == nil || (isList && len(l) == 0) {
+					delete(sm, "descriptor_map")
+				}
+			}
+		}
+	}
+	return out
+}
+
 func c02Short(v any) string {
 	b, _ := json.Marshal(v)
 	if len(b) > 200 {
@@ -353,6 +380,14 @@ func (s *c02State) checkIntrospection(is *c02Issued, extended bool) {
 	fromCredential := func(member string) bool {
 		_, isClaim := is.Claims[member]
 		return isClaim || is.NullClaims[member]
+	}
+	if is.LooseClaims {
+		// any colliding id of the definition may or may not have produced a claim
+		for _, id := range is.FieldIDs {
+			if c02StdMembers[id] {
+				collide = append(collide, id)
+			}
+		}
 	}
 	if err != nil {
 		// refusing to answer is acceptable only as the guard against a claim that would override a standard member
@@ -431,6 +466,8 @@ func (s *c02State) checkIntrospection(is *c02Issued, extended bool) {
 			want, isClaim := is.Claims[k]
 			v, has := m[k]
 			switch {
+			case is.LooseClaims:
+				// outside the model
 			case is.NullClaims[k]:
 				if has && v != nil {
 					x.Violate(ep+":claim-wrong", "%s: claim %q = %s, but the credential has no value at the constraint path", ep, k, c02Short(v))
@@ -443,6 +480,9 @@ func (s *c02State) checkIntrospection(is *c02Issued, extended bool) {
 		}
 	} else {
 		s.checkExtended(is, m, over)
+	}
+	if is.LooseClaims {
+		return
 	}
 	// credential-derived claims
 	for k, want := range is.Claims {
@@ -503,7 +543,7 @@ func (s *c02State) checkExtended(is *c02Issued, m map[string]any, over func(stri
 	}
 	// presentation_submissions: definition id -> the submission that was sent
 	subs, _ := m["presentation_submissions"].(map[string]any)
-	if subs == nil || !c02JSONEq(subs, is.Subs) {
+	if subs == nil || !c02JSONEq(c02NormSubs(subs), c02NormSubs(is.Subs)) {
 		over("presentation_submissions", m["presentation_submissions"], is.Subs)
 	}
 	// presentation_definitions: "fulfilled to obtain the access token" (API spec): wallet owner type -> definition
